@@ -52,6 +52,15 @@ pub fn check_coordinates(rep: &mut Report, e: &JmespathError, source: &str, what
         );
         return false;
     }
+    // a call that failed is pointed at by its opening parenthesis: whatever the text, the byte under
+    // the offset of an unknown-function / arity / type error is a `(`
+    if matches!(err_class(e), "unknown-function" | "arity" | "type") && expr.as_bytes().get(e.offset) != Some(&b'(') {
+        rep.violation(
+            "C12/call-error-does-not-point-at-an-opening-parenthesis",
+            json!({"source": source, "error": err_json(e), "kind": what, "character_at_offset": expr[e.offset..].chars().next().map(|c| c.to_string())}),
+        );
+        ok = false;
+    }
     let before = &expr[..e.offset];
     let line = before.matches('\n').count();
     let column = match before.rfind('\n') {
@@ -135,7 +144,13 @@ const CORES: [&str; 45] = [
     "not_null()",
 ];
 
-const PREFIXES: [&str; 12] = [
+const PREFIXES: [&str; 18] = [
+    "'C:\\été' | ",
+    "'\\中' | ",
+    "'a\\\'é\\日' || ",
+    "`\"\\\\é\"` | ",
+    "\"\\u00e9\\\\é\" || ",
+    "'\\\u{1F600}\\x' | ",
     "",
     "'é' | ",
     "'日本\n語' | ",
@@ -328,7 +343,20 @@ fn parse_case(rep: &mut Report, rng: &mut Rng) {
     };
     rep.evaluations += 1;
     match guarded(|| jmespath::compile(&candidate).map(|_| ())) {
-        Ok(Ok(())) => rep.count("mutant_compiled"),
+        Ok(Ok(())) => {
+            rep.count("mutant_compiled");
+            // whatever compiles (a sentence or not): a runtime error of searching it is located truthfully
+            for d in [json!({"a": "x", "b": [1, "y"], "foo": {"bar": null}}), json!([{"a": 1}, null, "s"]), json!(null)] {
+                if let Ok(Err(e)) = guarded(|| jmespath::compile(&candidate).and_then(|x| x.search(rcvar_of(&d)))) {
+                    if err_class(&e) != "parse" && e.expression != candidate {
+                        rep.violation("C12/error-does-not-carry-the-expression", json!({"expression": candidate, "carried": e.expression}));
+                    }
+                    if err_class(&e) != "parse" && check_coordinates(rep, &e, &candidate, "runtime-of-mutant") {
+                        rep.count("runtime_error_of_mutant_coordinates_ok");
+                    }
+                }
+            }
+        }
         Ok(Err(e)) => {
             if err_class(&e) != "parse" {
                 rep.violation("C12/compile-failure-is-not-a-parse-error", json!({"expression": candidate, "error": err_json(&e)}));
